@@ -449,10 +449,81 @@ pub fn run(args: &Args) {
             using_case(f, vs, &mut w, &mut sum, &mut evaluations);
         }
     }
+    // 5. every PRINT USING statement stands alone: a sequence of statements (the same format or
+    // another one, value counts that do or do not fill all fields, also inside a loop) prints the
+    // concatenation of what each statement prints when it is the whole program
+    {
+        let seq_fmts = ["A: # B: #", "[##] [##] [##]", "##", "\\ \\ x", "#,### !", "v=## w=##;"];
+        let seq_vals: Vec<Vec<UVal>> = vec![
+            vec![UVal::Int(1)],
+            vec![UVal::Int(1), UVal::Int(2)],
+            vec![UVal::Int(1), UVal::Int(2), UVal::Int(3)],
+            vec![UVal::Int(5), UVal::Int(6), UVal::Int(7), UVal::Int(8)],
+            vec![UVal::Str("ab".into())],
+            vec![UVal::Str("ab".into()), UVal::Str("c".into()), UVal::Str("d".into())],
+        ];
+        let stmt = |f: &str, vals: &[UVal]| -> String {
+            let vs: Vec<String> = vals.iter().map(|v| match v { UVal::Str(s) => format!("\"{}\"", s), UVal::Int(i) => format!("{}", i) }).collect();
+            format!("PRINT USING \"{}\"; {}\n", f, vs.join("; "))
+        };
+        let alone = |src: &str| -> Option<Vec<u8>> {
+            match run_program(src, &RunOpts::default()) {
+                Outcome::Ran(r) if r.end == End::Ok => Some(r.stdout.clone()),
+                _ => None,
+            }
+        };
+        let mut seqs: Vec<Vec<String>> = vec![];
+        for f in seq_fmts.iter() {
+            for v1 in seq_vals.iter() {
+                for v2 in seq_vals.iter().take(3) {
+                    seqs.push(vec![stmt(f, v1), stmt(f, v2)]);
+                }
+                let g = *rng.pick(&seq_fmts);
+                seqs.push(vec![stmt(f, v1), stmt(g, &seq_vals[1]), stmt(f, v1)]);
+            }
+        }
+        let budget = if args.thorough() { seqs.len() } else { 90 };
+        let step = (seqs.len() / budget).max(1);
+        for (k, sq) in seqs.iter().enumerate() {
+            if k % step != 0 {
+                continue;
+            }
+            let parts: Vec<Option<Vec<u8>>> = sq.iter().map(|x| alone(x)).collect();
+            evaluations += sq.len() + 1;
+            if parts.iter().any(|p| p.is_none()) {
+                sum.count("using_sequence_skipped_error");
+                continue;
+            }
+            let expected: Vec<u8> = parts.into_iter().flat_map(|p| p.unwrap()).collect();
+            let whole = sq.concat();
+            sum.count("using_sequences");
+            match alone(&whole) {
+                Some(out) if out == expected => {}
+                other => sum.violation(ImplViolation { key: "using-statement-depends-on-previous".into(), input: whole.clone(), expected: format!("{:?}", String::from_utf8_lossy(&expected)), observed: format!("{:?}", other.map(|o| String::from_utf8_lossy(&o).to_string())) }),
+            }
+        }
+        // the same statement executed repeatedly by a loop
+        for f in seq_fmts.iter() {
+            let one = format!("I% = 1\nPRINT USING \"{}\"; I%\n", f);
+            let looped = format!("FOR I% = 1 TO 3\nPRINT USING \"{}\"; I%\nNEXT\n", f);
+            let unrolled = format!("PRINT USING \"{0}\"; 1\nPRINT USING \"{0}\"; 2\nPRINT USING \"{0}\"; 3\n", f);
+            evaluations += 3;
+            if alone(&one).is_none() {
+                continue;
+            }
+            sum.count("using_sequences");
+            let a = alone(&looped);
+            let b = alone(&unrolled);
+            let first = alone(&one).unwrap();
+            if a.is_none() || a != b || !a.as_ref().unwrap().starts_with(&first) {
+                sum.violation(ImplViolation { key: "using-statement-depends-on-previous".into(), input: looped.clone(), expected: format!("the output of the three statements alone, starting with {:?}", String::from_utf8_lossy(&first)), observed: format!("{:?} / unrolled {:?}", a.map(|o| String::from_utf8_lossy(&o).to_string()), b.map(|o| String::from_utf8_lossy(&o).to_string())) });
+            }
+        }
+    }
     w.flush();
     sum.write(
         &args.out,
         evaluations,
-        "PRINT histories as whole programs over screen, LPT1 and two files: every item of the pool (numbers of every type and sign, empty/short/13/14/15-byte strings, strings with CR, LF, CRLF inside and at either end) alone with every trailing separator on every device, followed by a second statement on the same device; pairs of items with each separator; seeded random histories of 1..6 statements with leading, trailing and consecutive separators interleaved across the four devices. PRINT USING: every format string over {# , . \\ ! blank a} up to length 4 (quick, sampled beyond length 2) / 5 (thorough) with integer and string values, plus longer valid formats. Output bytes of each device are compared with the Coq model and with an independent re-statement of the column rules. Non-trivial = history of >= 2 statements / every USING case; distinct by program text.",
+        "PRINT histories as whole programs over screen, LPT1 and two files: every item of the pool (numbers of every type and sign, empty/short/13/14/15-byte strings, strings with CR, LF, CRLF inside and at either end) alone with every trailing separator on every device, followed by a second statement on the same device; pairs of items with each separator; seeded random histories of 1..6 statements with leading, trailing and consecutive separators interleaved across the four devices. PRINT USING: every format string over {# , . \\ ! blank a} up to length 4 (quick, sampled beyond length 2) / 5 (thorough) with integer and string values, plus longer valid formats; sequences of two or three PRINT USING statements (same or other format, value counts that do and do not fill all fields, also repeated by a loop) against the concatenation of the statements run alone. Output bytes of each device are compared with the Coq model and with an independent re-statement of the column rules. Non-trivial = history of >= 2 statements / every USING case; distinct by program text.",
     );
 }
